@@ -164,9 +164,9 @@ class DBFSStore(Store):
         # Deprecation hack
         # To ensure that older data already written can still be read, add the following compatibility routines:
         for (old_codec_ref, new_codec) in [
-            ("dbfs.pickle", plfc),
+            ("dbfs.pickle", bfc),
             ("dbfs.string", slfc),
-            ("dbfs.bytes", bfc),
+            ("dbfs.bytes", plfc),
         ]:
             self._registry._protocols[ProtocolRef(old_codec_ref)] = new_codec
 
